@@ -256,6 +256,9 @@ class Ctx:
         try:
             cfg = fn.cfg
             pd = cfg.pos1(self.decls[d].get("declnode"))
+            if pd is None and self.decls[d].get("init") is not None:
+                # a declaration statement with several variables is split by the CFG builder: use the initialiser's position
+                pd = cfg.pos1(self.decls[d]["init"])
             pu = cfg.pos1(use_node)
             if pd is not None and pu is not None:
                 res = True
